@@ -398,6 +398,10 @@ func (conn *Conn) read(ctx *Context, async bool) {
 					return
 				}
 			} else if u.Stream == openStream {
+				// The stream is established: later messages with this
+				// sequence number are stream messages, even if they arrive
+				// before the caller of NewStream has resumed.
+				u.Stream = streaming
 				call.done()
 			}
 			conn.bufferPool.PutBuffer(ctx.buffer)
